@@ -2,6 +2,7 @@ import Amgcl.Proofs.SchurExact
 import Amgcl.Proofs.Deflation
 import Amgcl.Proofs.CPRApp
 import Amgcl.Proofs.CPRPass
+import Amgcl.Proofs.C18Examples
 /-!
 # C18 — composite preconditioners realise their block formulas
 
@@ -13,8 +14,8 @@ Schur pressure correction (`schur_pressure_correction.hpp`), for EVERY pressure 
 * `partition_reassembles` : the gather/scatter matrices and the four extracted sub-blocks reassemble to `K`;
   `partition_blocks` : each sub-block is `K` restricted to the two index classes.
 * `schur1_exact` : `type = 1` with `U = Kuu⁻¹` and a pressure solve that inverts the matrix-free operator the code
-  applies returns `x` with `K x = f`, for every `adjust_p` setting (after fix ce6260a; `schur1_asfound_counterexample`
-  shows the code as found violated it when `Kpp` had no stored diagonal).
+  applies returns `x` with `K x = f`, for every `adjust_p` setting (the model is the code after fix ce6260a; before it the
+  clause failed when `Kpp` had a row without stored diagonal entry, see notes/repro_c18_schur_adjust_p_missing_diag.cpp).
 * `schur2_block_triangular` : `type = 2` solves `S p = f_p`, `Kuu u + Kup p = f_u`.
 
 CPR (`cpr.hpp`): `cpr_formula`, `cpr_pressure_matrix`, `cpr_partial_update_noop` (scalar input, sorted rows).
@@ -79,6 +80,12 @@ theorem partition_reassembles (nt : Nat) (prm : Params) (A : CRS K) (pm : Array 
       = toMat A pm.size pm.size :=
   good_reassemble (init_good nt prm A pm hA hn hc) hA hn hc
 
+-- non-vacuity: a well-formed 2×2 system `[2 1; 1 3]` with the interleaved mask `[u, p]`
+example : C18Ex.A2.WF ∧ C18Ex.A2.nrows = C18Ex.pm2.size ∧ C18Ex.A2.ncols = C18Ex.pm2.size := C18Ex.A2_ok
+example : (init 1 {} C18Ex.A2 C18Ex.pm2).Kup.get 0 0 = C18Ex.A2.get 0 1 :=
+  (partition_blocks 1 {} C18Ex.A2 C18Ex.pm2 C18Ex.A2_ok.1 C18Ex.A2_ok.2.1 C18Ex.A2_ok.2.2 0 0).2.1
+    (by decide) (by decide)
+
 /-- **Schur pressure correction of type 1 with exact inner solves is the exact inverse**: for every mask and every
 `adjust_p`, if `U` solves with the (non-singular) `Kuu` handed to the u-solver and `Ps` solves with the matrix-free
 operator `S` the object applies in `spmv`, then `apply` returns `x` with `K x = f`. -/
@@ -100,6 +107,13 @@ theorem schur1_exact (nt : Nat) (prm : Params) (A : CRS K) (pm : Array Bool) (hA
   rw [toV_spmv' 1 0 _ _ _ hS.uu.1 _ _ hS.uu.2.1 hS.uu.2.2] at h
   simp only [one_smul, zero_smul, add_zero] at h
   rw [← h, Matrix.mulVec_mulVec, Matrix.nonsing_inv_mul _ hdet, Matrix.one_mulVec]
+
+-- non-vacuity: on `K = [2 1; 1 3]`, mask `[u, p]`, default parameters (`adjust_p = 1`), the exact inner solves
+-- `U = 1/2`, `P = (5/2)⁻¹` satisfy every hypothesis, and the theorem yields `K x = (1, 2)`
+example : ∃ x, (init 1 (C18Ex.prmT 1) C18Ex.A2 C18Ex.pm2).apply C18Ex.U2 C18Ex.P2 #[1, 2] = some x ∧
+    spmv 1 C18Ex.A2 x 0 (vclear C18Ex.pm2.size) = #[1, 2] :=
+  schur1_exact 1 (C18Ex.prmT 1) C18Ex.A2 C18Ex.pm2 C18Ex.A2_ok.1 C18Ex.A2_ok.2.1 C18Ex.A2_ok.2.2 rfl rfl
+    C18Ex.U2 C18Ex.P2 (C18Ex.det2 1) (fun r hr => (C18Ex.hU2 1 r hr).2) (fun r hr => (C18Ex.hP2 1 r hr).2) #[1, 2] rfl
 
 /-- … hence, when `K` itself is non-singular, the result is `K⁻¹ f` -/
 theorem schur1_exact_inv (nt : Nat) (prm : Params) (A : CRS K) (pm : Array Bool) (hA : A.WF)
@@ -140,6 +154,12 @@ theorem schur2_block_triangular (nt : Nat) (prm : Params) (A : CRS K) (pm : Arra
         = spmv 1 S.x2u f 0 (vclear S.nu) :=
   good_schur2 (init_good nt prm A pm hA hn hc) hA hn hc htype U Ps hU hP f
 
+-- non-vacuity: the same system and inner solves with `type = 2`
+example : ∃ x, (init 1 (C18Ex.prmT 2) C18Ex.A2 C18Ex.pm2).apply C18Ex.U2 C18Ex.P2 #[1, 2] = some x :=
+  let ⟨x, hx, _⟩ := schur2_block_triangular 1 (C18Ex.prmT 2) C18Ex.A2 C18Ex.pm2 C18Ex.A2_ok.1 C18Ex.A2_ok.2.1
+    C18Ex.A2_ok.2.2 rfl C18Ex.U2 C18Ex.P2 (C18Ex.hU2 2) (C18Ex.hP2 2) #[1, 2]
+  ⟨x, hx⟩
+
 end schur
 
 section deflation
@@ -170,6 +190,12 @@ theorem deflation_projects (nt : Nat) (hnt : 0 < nt) (A : CRS K) (hA : A.WF) (n 
     simp only [Option.map_some, Option.some.injEq] at hst
     subst hst
     exact project_orth nt hnt A hA n hn hc Z hZ hnv Ei hinv b x hb hx k hk
+
+-- non-vacuity: 1-D Laplacian on two points, one constant deflation vector (`E = (2)`, stored inverse `(1/2)`)
+example : ∑ l ∈ range 2, (C18Ex.Zd.getD 0 #[]).getD l 0 *
+    (residual #[1, 0] C18Ex.Ad (project 3 C18Ex.std #[1, 0] #[5, 7])).getD l 0 = 0 :=
+  deflation_projects 3 (by decide) C18Ex.Ad C18Ex.Ad_ok.1 2 C18Ex.Ad_ok.2.1 C18Ex.Ad_ok.2.2 C18Ex.Zd C18Ex.Zd_ok
+    (by decide) C18Ex.std C18Ex.init_d C18Ex.hinv_d #[1, 0] #[5, 7] rfl rfl 0 (by decide)
 
 /-- **with an exact preconditioner the deflated solver (with `preonly`) returns the solution of the original system** -/
 theorem deflation_exact_precond (nt : Nat) (hnt : 0 < nt) (A : CRS K) (hA : A.WF) (n : Nat) (hn : A.nrows = n)
@@ -302,6 +328,11 @@ theorem cpr_pressure_matrix (A : CRS K) (hs : A.sortedb = true) (B act q : Nat) 
   have hg := hFget i hi'
   unfold CRS.get at hg
   rw [hg]
+
+-- non-vacuity: a 4×4 system with sorted rows, `block_size = 2`, all rows active (`q = 2`)
+example : (initScalar C18Ex.Ac 2 0).App.get 0 1
+    = ∑ i ∈ range 2, (initScalar C18Ex.Ac 2 0).Fpp.get 0 (0 * 2 + i) * C18Ex.Ac.get (0 * 2 + i) (1 * 2) :=
+  cpr_pressure_matrix C18Ex.Ac C18Ex.Ac_ok.1 2 0 2 (by decide) C18Ex.Ac_ok.2 0 1 (by decide) (by decide)
 
 /-- **a partial update with an unchanged matrix leaves the object — hence its action — unchanged**, with or without
 `update_transfer_ops` (scalar input, rows with strictly increasing columns) -/
